@@ -331,6 +331,62 @@ Definition outcome_matches (m : outcome) (o : c08_obs) : bool :=
   Bool.eqb (o_sandbox m) (ob_sandbox o) &&
   list_eqb obs_eqb (o_values m) (ob_values o).
 
+(** ** The type a reference must have is decided by its syntactic POSITION inside a composite value
+    (reference manual: STRING, LIST, PATH syntax; parse_string.py, parse_list.py, parse_path.py):
+      - a fragment of a string, an element of a list (naked reference or fragment of a string element):
+        any value with a string rendering (string, path or list), nothing demanded of indirect references;
+      - a path given WITHOUT relativity option whose first fragment is a reference that is the whole
+        argument or is followed by text starting with '/': that reference is a path (any relativity) or a
+        string; every OTHER reference of a path argument - the path suffix after -rel-X / -rel SYMBOL,
+        a reference that is not first, a first reference followed by other text or by another
+        reference - is a path component: a string all of whose indirect references are strings;
+      - the SYMBOL of -rel SYMBOL: a path (any relativity).
+    [canon_*] re-attaches these restrictions; the restrictions read from the live parsers must coincide
+    with them (correspondence), and the property predicate is evaluated with them (so that a parser
+    that demands less at some position is a VIOLATION, not merely a broken tie). *)
+Definition any_data : restr := RDI (VArb [WString; WPath; WList]) None.
+Definition all_rels : list rel := [RCwd; RHdsCase; RHdsAct; RAct; RTmp; RResult].
+Definition def_path_base : restr := RDI (VPathRel all_rels true) None.
+Definition def_path_or_str : restr :=
+  ROr [(WPath, (VPathRel all_rels true, None)); (WString, (VArb [WString], Some (VArb [WString])))].
+Definition str_only_restr : restr := RDI (VArb [WString]) (Some (VArb [WString])).
+Definition canon_frag (r : restr) (f : frag) : frag :=
+  match f with FConst _ => f | FSym x => FSym (Ref (r_name x) r) end.
+Definition canon_psdv (p : psdv) : psdv :=
+  match p with
+  | PConst _ _ => p
+  | PRelOpt rl sfx => PRelOpt rl (map (canon_frag str_only_restr) sfx)
+  | PRelSym b sfx => PRelSym (Ref (r_name b) def_path_base) (map (canon_frag str_only_restr) sfx)
+  | PRef x sfx d => PRef (Ref (r_name x) def_path_or_str) (map (canon_frag str_only_restr) sfx) d
+  end.
+Definition canon_sdv (s : sdv) : sdv :=
+  match s with
+  | SStr fs => SStr (map (canon_frag any_data) fs)
+  | SLst es => SLst (map (fun e => match e with
+                                   | EStr fs => EStr (map (canon_frag any_data) fs)
+                                   | ESym x => ESym (Ref (r_name x) any_data)
+                                   end) es)
+  | SPth p => SPth (canon_psdv p)
+  | SOther _ => s
+  end.
+Definition canon_instr (i : instr) : instr :=
+  match i with
+  | IDef n c => IDef n (Cont (c_type c) (canon_sdv (c_sdv c)))
+  | IUse refs (v :: vs) => let vals := map canon_sdv (v :: vs) in IUse (flat_map sdv_refs vals) vals
+  | _ => i
+  end.
+Definition canon_tcase (tc : tcase) : tcase :=
+  TCase (map canon_instr (t_setup tc)) (map canon_instr (t_act tc)) (map canon_instr (t_before_assert tc))
+        (map canon_instr (t_assert tc)) (map canon_instr (t_cleanup tc)).
+Definition refs_of_instr (i : instr) : list ref :=
+  match i with
+  | IDef _ c => sdv_refs (c_sdv c)
+  | IUse refs vals => refs ++ flat_map sdv_refs vals
+  | IStop _ => []
+  end.
+Definition canon_ok (tc : tcase) : bool :=
+  forallb (fun i => list_eqb ref_eqb (refs_of_instr i) (refs_of_instr (canon_instr i))) (exec_order tc).
+
 (** Correspondence: the observation is what the model of the code as it is predicts - or, where the two
     differ (inputs of the known finding KF-C08-1 only), what the repaired executor would do, so that a
     repair of that defect does not break the tie. *)
@@ -338,7 +394,7 @@ Definition check_case (c : c08_case) : bool * bool :=
   let roots := roots_of (cc_roots c) in
   let tc := assemble (cc_layout c) in
   let o := cc_obs c in
-  ( wf_tcase tc && builtins_ok (cc_builtins c) &&
+  ( wf_tcase tc && builtins_ok (cc_builtins c) && canon_ok tc &&
     (outcome_matches (sym_execute roots (cc_builtins c) tc) o ||
      outcome_matches (sym_execute_gen true roots (cc_builtins c) tc) o),
-    P_C08 roots (cc_builtins c) tc o ).
+    P_C08 roots (cc_builtins c) (canon_tcase tc) o ).
